@@ -251,6 +251,38 @@ theorem hashWrite_writeAllWith {S : Type} (f : BlockFn) (innerWrite : S → Byte
           exact this
         rw [this]
 
+/-! ### `write_all` into a writer that accepts only part of what it is offered -/
+
+theorem sinkContent_cons (x : Bytes) (s : List Bytes) : sinkContent (x :: s) = sinkContent s ++ x := by
+  simp [sinkContent]
+
+theorem sink_writeAllWith (maxWrite : Nat) : ∀ (fuel : Nat) (s : List Bytes) (buf : Bytes), buf.length < fuel →
+    ∃ s', writeAllWith (sinkWrite maxWrite) fuel s buf = .ok s' ∧ sinkContent s' = sinkContent s ++ buf := by
+  intro fuel
+  induction fuel with
+  | zero => intro s buf h; omega
+  | succ fuel ih =>
+    intro s buf hf
+    cases hb : buf with
+    | nil => exact ⟨s, by simp [writeAllWith], by simp⟩
+    | cons a l =>
+      rw [← hb]
+      have hl : 0 < buf.length := by rw [hb]; simp
+      have hne : buf.isEmpty = false := by rw [hb]; rfl
+      -- the number of bytes this call accepts
+      have hn : ∃ n, 0 < n ∧ n ≤ buf.length ∧ sinkWrite maxWrite s buf = .ok (buf.take n :: s, n) := by
+        by_cases hm : maxWrite = 0
+        · exact ⟨buf.length, hl, Nat.le_refl _, by simp [sinkWrite, hm]⟩
+        · exact ⟨min maxWrite buf.length, by omega, Nat.min_le_right _ _, by simp [sinkWrite, hm]⟩
+      obtain ⟨n, hn0, hnl, hw⟩ := hn
+      obtain ⟨s', h1, h2⟩ := ih (buf.take n :: s) (buf.drop n) (by simp only [List.length_drop]; omega)
+      refine ⟨s', ?_, ?_⟩
+      · have g1 : ¬ n = 0 := by omega
+        have g2 : ¬ n > buf.length := by omega
+        simp only [writeAllWith, hne, hw, g1, g2, if_false, Bool.false_eq_true]
+        exact h1
+      · rw [h2, sinkContent_cons, List.append_assoc, List.take_append_drop]
+
 /-! ## contract of `flate2::Compress` and the `write_inner` loop -/
 
 /-- Assumed contract of the external compressor, relative to `IsStream z d` ("`z` is a complete
